@@ -90,6 +90,20 @@ def gcc_feasible(v0, lows, ups, box):
     return _maxflow(4 + n + m, edges2, SS, TT) == need
 
 
+def alldiff_greedy(box):
+    """earliest-deadline greedy for interval domains (complete for intervals): variables by increasing max, each takes
+    the smallest free value >= its min; works for values of any magnitude"""
+    used = set()
+    for lo, hi in sorted(box, key=lambda d: (d[1], d[0])):
+        c = lo
+        while c in used:
+            c += 1
+        if c > hi:
+            return False
+        used.add(c)
+    return True
+
+
 def alldiff_feasible(box):
     if any(lo > hi for lo, hi in box):
         return False
@@ -98,6 +112,8 @@ def alldiff_feasible(box):
     lo0 = min(lo for lo, _ in box)
     hi0 = max(hi for _, hi in box)
     m = hi0 - lo0 + 1
+    if m > 300:
+        return alldiff_greedy(box)
     return gcc_feasible(lo0, [0] * m, [1] * m, box)
 
 
